@@ -357,7 +357,7 @@ def dispatch(ix, R):
             return frozenset(fmt(fl, x) for x in elts)
         for e in fl.of('call'):
             if e.name in WRITERS or e.name in ('create_group',):
-                pos = [g for g in e.guards if g.positive]
+                pos = [g for g in e.guards if g.positive] + [g for g in getattr(e, 'validated', ()) if g.positive]
                 tys = frozenset().union(*[types_of(g.rf) for g in pos]) if pos else frozenset()
                 table.setdefault(e.name, []).append((tys, [fmt(fl, a) for a in e.args]))
         why = []
